@@ -336,6 +336,9 @@ func (c *Ctx) Finish(seed int64, levelText string, assumptions []string) int {
 	for k, v := range c.Extra {
 		cov[k] = v
 	}
+	if len(c.P.Relocated) > 0 {
+		cov["relocated_anchors"] = c.P.Relocated // unexported anchors found under a new name through their frozen callers
+	}
 	ev := map[string]any{
 		"property_id": c.Prop,
 		"tier":        c.Tier,
